@@ -62,7 +62,21 @@ def run_shard(spec, tier, seed):
              # empty arrays
              ((6,), "extra-field"), ((2, 3), "float32"), ((6,), "int64"), ((2, 3), "mixed-dtypes"), ((2, 3), "fortran"),
              ((6,), "big-endian"), ((2, 3, 2), "strided"), ((0,), "empty"), ((2, 0), "empty"))
-    for shape, field_order in forms:
+    for fi, (shape, field_order) in enumerate(forms):
+        if fi == 1:
+            # history: between the first form (fresh process) and all the others, the documented coordinate classes are
+            # constructed with valid but non-canonical dtypes (fields in another order, an extra field) -- nothing of that
+            # may show in how later arrays are indexed
+            import vector.backends.numpy as vbn
+            for cname_, flds in (("AzimuthalNumpyXY", ("x", "y")), ("AzimuthalNumpyRhoPhi", ("rho", "phi")), ("LongitudinalNumpyZ", ("z",)),
+                                 ("LongitudinalNumpyTheta", ("theta",)), ("LongitudinalNumpyEta", ("eta",)), ("TemporalNumpyT", ("t",)),
+                                 ("TemporalNumpyTau", ("tau",))):
+                for dt_ in ([(f, numpy.float64) for f in reversed(flds)], [("weight", numpy.float32)] + [(f, numpy.float64) for f in flds]):
+                    try:
+                        getattr(vbn, cname_)([tuple(1.0 + k for k in range(len(dt_)))] * 2, dtype=dt_)
+                        res.count("history:coordinate_class_constructed_with_noncanonical_dtype")
+                    except Exception:
+                        res.count("history:coordinate_class_construction_rejected")
         n = int(numpy.prod(shape))
         rows = []
         integer = field_order == "int64"
